@@ -41,6 +41,7 @@ type glueCall struct {
 	ans    tak.Move
 	chk    []fpa.VerifChk
 	hasChk bool
+	expire bool // the per-call time budget runs out while the searcher works
 }
 
 func parseGlueCall(tok string) glueCall {
@@ -51,6 +52,8 @@ func parseGlueCall(tok string) glueCall {
 			c.j = atoi(f[2:])
 		case strings.HasPrefix(f, "a="):
 			c.ans = decMove(f[2:])
+		case f == "x=1":
+			c.expire = true
 		case strings.HasPrefix(f, "k="):
 			w := strings.Split(f[2:], ":")
 			if len(w) != 3 {
@@ -199,6 +202,9 @@ func glueRun(a []string, probe bool) (ret string) {
 						}
 					}
 				}()
+				if c.expire {
+					v.ExpireNext()
+				}
 				ret, rec := v.Call(p, c.ans, c.chk, probe)
 				if probe {
 					word = "obs=-"
